@@ -4,7 +4,9 @@ Model of the Python quoting functions (C18).
 EdgeQL side (`edb/edgeql/quote.py`, `edb/edgeql/codegen.py`):
   `escapeString`, `quoteLiteral`, `dollarQuoteLiteral`, `needsQuoting`,
   `quoteIdent`, `ppStr` (= the text `visit_Constant` writes for a STRING
-  constant, including Python's `repr`), `ppBytes` (= `visit_BytesConstant`).
+  constant), `ppBytes` (= `visit_BytesConstant`).  State of the code: after the
+  fixes 269eaeb, 6e967b8, 1c83ec0, 878e057 (the previous behaviour is kept in
+  `Model/QuoteOld.lean` for the record).
 SQL side (`edb/pgsql/common.py`, used by `edb/pgsql/codegen.py` and
 `edb/pgsql/dbops/base.py::encode_value`):
   `pgQuoteLiteral`, `pgQuoteELiteral`, `pgNeedsQuoting`, `pgQuoteIdent`,
@@ -14,7 +16,7 @@ Strings are `List Char` (code points; lone surrogates, which a Python `str` can
 hold but UTF-8 cannot, are outside the model), bytes are `List UInt8`.
 
 Unicode: the Python functions consult CPython's Unicode database (`re` `\w`,
-`\d`; `str.isalnum/isdecimal/isprintable/lower`).  On ASCII the behaviour is
+`\d`; `str.isalnum/isdecimal/isalpha/lower`).  On ASCII the behaviour is
 hard-wired here; outside ASCII it is the parameter `PyUnicode` (the driver
 instantiates it with what the running interpreter answers for the characters in
 play).
@@ -36,10 +38,13 @@ open EdbVerif.Lex (findSub asciiLower isDigit isAsciiLetter utf8Len)
 structure PyUnicode where
   isalnum   : Char → Bool             -- str.isalnum (per character)
   isdecimal : Char → Bool             -- str.isdecimal;  re `\d`
-  printable : Char → Bool             -- str.isprintable (per character)
+  isalpha   : Char → Bool             -- str.isalpha (per character)
   lower     : List Char → List Char   -- str.lower
 
 def PyUnicode.ascii : PyUnicode := ⟨fun _ => false, fun _ => false, fun _ => false, id⟩
+
+def pyIsAlpha (P : PyUnicode) (c : Char) : Bool :=
+  if c.toNat < 128 then isAsciiLetter c else P.isalpha c
 
 def pyIsAlnum (P : PyUnicode) (c : Char) : Bool :=
   if c.toNat < 128 then isAsciiLetter c || isDigit c else P.isalnum c
@@ -52,9 +57,6 @@ def pyIsWord (P : PyUnicode) (c : Char) : Bool := pyIsAlnum P c || c = '_'
 
 /-- re `[^\W\d]` -/
 def pyIsWordStart (P : PyUnicode) (c : Char) : Bool := pyIsWord P c && !pyIsDecimal P c
-
-def pyIsPrintable (P : PyUnicode) (c : Char) : Bool :=
-  if c.toNat < 128 then 32 ≤ c.toNat && c.toNat ≤ 126 else P.printable c
 
 def pyLower (P : PyUnicode) (s : List Char) : List Char :=
   if s.all (fun c => c.toNat < 128) then s.map asciiLower else P.lower s
@@ -82,7 +84,19 @@ def revHex (n : Nat) : List Char := revHexAux n n
 def replaceChar (c : Char) (rep : List Char) (s : List Char) : List Char :=
   s.flatMap (fun x => if x = c then rep else [x])
 
-/-- `escape_string`, replacement after replacement as in the source -/
+/-- `_re_unprintable`:
+    `[\u0000-\u0007\u000B\u000E-\u001F\u007F-\u009F\u202A-\u202E\u2066-\u2069]` -/
+def isUnprintableRE (c : Char) : Bool :=
+  let n := c.toNat
+  n ≤ 7 || n = 0xB || (0xE ≤ n && n ≤ 0x1F) || (0x7F ≤ n && n ≤ 0x9F) ||
+  (0x202A ≤ n && n ≤ 0x202E) || (0x2066 ≤ n && n ≤ 0x2069)
+
+/-- `_escape_unprintable`: `\xNN` below 0x80, `\uNNNN` otherwise -/
+def escapeUnprintable (c : Char) : List Char :=
+  if c.toNat < 0x80 then '\\' :: 'x' :: hex2 c.toNat else '\\' :: 'u' :: hex4 c.toNat
+
+/-- `escape_string`, replacement after replacement as in the source, then
+    `_re_unprintable.sub(_escape_unprintable, result)` -/
 def escapeString (s : List Char) : List Char :=
   let r := replaceChar '\\' ['\\', '\\'] s
   let r := replaceChar '\'' ['\\', '\''] r
@@ -90,7 +104,8 @@ def escapeString (s : List Char) : List Char :=
   let r := replaceChar (Char.ofNat 12) ['\\', 'f'] r
   let r := replaceChar '\n' ['\\', 'n'] r
   let r := replaceChar '\r' ['\\', 'r'] r
-  replaceChar '\t' ['\\', 't'] r
+  let r := replaceChar '\t' ['\\', 't'] r
+  r.flatMap (fun c => if isUnprintableRE c then escapeUnprintable c else [c])
 
 /-- `quote_literal` -/
 def quoteLiteral (s : List Char) : List Char := '\'' :: escapeString s ++ ['\'']
@@ -101,11 +116,11 @@ def contains (sub text : List Char) : Bool := (findSub sub text).isSome
 /-- `'${:x}$'.format(qq)[::-1]` -/
 def tagOf (qq : Nat) : List Char := '$' :: revHex qq ++ ['$']
 
-/-- the `while quote in text` loop of `dollar_quote_literal` -/
+/-- the `while quote in text + quote[:-1]` loop of `dollar_quote_literal` -/
 def dollarLoop (text : List Char) : Nat → List Char → Nat → Option (List Char)
   | 0, _, _ => none
   | f + 1, quote, qq =>
-    if contains quote text then
+    if contains quote (text ++ quote.dropLast) then
       let qq1 := if qq % 16 < 10 then qq + (10 - qq % 16) else qq
       dollarLoop text f (tagOf qq1) (qq1 + 1)
     else some quote
@@ -148,7 +163,10 @@ def dunderStd : List Char := ['_', '_', 's', 't', 'd', '_', '_']
 def needsQuoting (P : PyUnicode) (s : List Char) (allowReserved allowNum : Bool) : Bool :=
   if s.isEmpty || s.head? = some '@' || hasNamespaceSep s then false
   else
-    let isalnum := matchIdent P s || (allowNum && matchNum P s)
+    let isalnum := (matchIdent P s || (allowNum && matchNum P s)) &&
+      (match s with
+       | [] => false
+       | c :: _ => c = '_' || pyIsAlpha P c || pyIsDecimal P c)
     let l := pyLower P s
     let isReserved := l ≠ dunderType && l ≠ dunderStd && isReservedKw l
     !isalnum || (!allowReserved && isReserved)
@@ -162,52 +180,30 @@ def quoteIdent (P : PyUnicode) (s : List Char) (force allowReserved allowNum : B
 
 /-! ### `edb/edgeql/codegen.py` -/
 
-/-- `_NON_PRINTABLE_RE`: `[\u0000-\u0008\u000B\u000C\u000E-\u001F\u007F\u0080-\u009F\n]` -/
+/-- `_NON_PRINTABLE_RE`:
+    `[\u0000-\u0008\u000B\u000C\u000E-\u001F\u007F\u0080-\u009F\n\u202A-\u202E\u2066-\u2069]` -/
 def isNonPrintableRE (c : Char) : Bool :=
   let n := c.toNat
-  n ≤ 8 || n = 0xB || n = 0xC || (0xE ≤ n && n ≤ 0x1F) || n = 0x7F || (0x80 ≤ n && n ≤ 0x9F) || n = 10
+  n ≤ 8 || n = 0xB || n = 0xC || (0xE ≤ n && n ≤ 0x1F) || n = 0x7F || (0x80 ≤ n && n ≤ 0x9F) || n = 10 ||
+  (0x202A ≤ n && n ≤ 0x202E) || (0x2066 ≤ n && n ≤ 0x2069)
 
-/-- one character of CPython's `unicode_repr` with quote character `q` -/
-def reprChar (P : PyUnicode) (q : Char) (c : Char) : List Char :=
-  let n := c.toNat
-  if c = q ∨ c = '\\' then ['\\', c]
-  else if c = '\t' then ['\\', 't']
-  else if c = '\n' then ['\\', 'n']
-  else if c = '\r' then ['\\', 'r']
-  else if n < 32 ∨ n = 0x7f then '\\' :: 'x' :: hex2 n
-  else if n < 0x7f then [c]
-  else if pyIsPrintable P c then [c]
-  else if n ≤ 0xff then '\\' :: 'x' :: hex2 n
-  else if n ≤ 0xffff then '\\' :: 'u' :: hex4 n
-  else '\\' :: 'U' :: hex8 n
-
-/-- the quote `repr` picks: `"` iff the string has a `'` and no `"` -/
-def reprQuote (s : List Char) : Char :=
-  if s.contains '\'' && !s.contains '"' then '"' else '\''
-
-/-- `repr(s)` for a `str` -/
-def pyRepr (P : PyUnicode) (s : List Char) : List Char :=
-  let q := reprQuote s
-  q :: s.flatMap (reprChar P q) ++ [q]
-
-/-- `visit_Constant` for `ConstantKind.STRING` -/
-def ppStr (P : PyUnicode) (s : List Char) : Option (List Char) :=
-  if s.any isNonPrintableRE then some (pyRepr P s)
+/-- `visit_Constant` for `ConstantKind.STRING`: `for d in ("'", '"', '$$'): if d not in
+    value + d[:-1]` (the suffix is empty for the one-character quotes, `$` for `$$`) -/
+def ppStr (s : List Char) : Option (List Char) :=
+  if s.any isNonPrintableRE then some (quoteLiteral s)
   else if !s.contains '\'' then
     (if s.contains '\\' then some ('r' :: '\'' :: s ++ ['\'']) else some ('\'' :: s ++ ['\'']))
   else if !s.contains '"' then
     (if s.contains '\\' then some ('r' :: '"' :: s ++ ['"']) else some ('"' :: s ++ ['"']))
-  else if !contains ['$', '$'] s then some ('$' :: '$' :: s ++ ['$', '$'])
+  else if !contains ['$', '$'] (s ++ ['$']) then some ('$' :: '$' :: s ++ ['$', '$'])
   else dollarQuoteLiteral s
 
-/-- `_bytes_escape` applied where `_BYTES_ESCAPE_RE` matches.  The pattern is
-    written `b'[\\\'\x00-\x1f\x7e-\xff]'` in a NON-raw bytes literal, so the regex
-    engine receives `[\'<00>-<1f><7e>-<ff>]`: the backslash escapes the quote and
-    is NOT itself a member of the class.  A backslash byte is therefore never
-    escaped (the `b'\\'` entry of `_ESCAPES` is dead code). -/
+/-- `_bytes_escape` applied where `_BYTES_ESCAPE_RE` = `rb'[\\\'\x00-\x1f\x7e-\xff]'` matches
+    (backslash, quote, 0x00–0x1f, 0x7e–0xff): `_ESCAPES` for `\\ ' TAB LF`, `\xNN` otherwise -/
 def escByte (b : UInt8) : List Char :=
   let n := b.toNat
-  if n = 39 then ['\\', '\'']
+  if n = 92 then ['\\', '\\']
+  else if n = 39 then ['\\', '\'']
   else if n = 9 then ['\\', 't']
   else if n = 10 then ['\\', 'n']
   else if n ≤ 0x1f ∨ 0x7e ≤ n then '\\' :: 'x' :: hex2 n
